@@ -107,7 +107,7 @@ def run(ctx):
     wl_ = f"{VS}:limited_search_result_from_parent_map"
     from ..astutil import bind_roles, canonicalise
 
-    fl = canonicalise(fl, bind_roles(fl, {"start_keys": ("assign", "~\\w+\\.get_state\\(\\)", 0), "exclude_keys": ("assign", "~\\w+\\.get_state\\(\\)", 1), "keys": ("assign", "~\\w+\\.get_state\\(\\)", 2)}, wl_))
+    fl = canonicalise(fl, bind_roles(fl, {"start_keys": ("assign", "~\\w+\\.get_state\\(\\)", 0), "exclude_keys": ("assign", "~\\w+\\.get_state\\(\\)", 1), "keys": ("assign", "~\\w+\\.get_state\\(\\)", 2), "found_heads": ("assign", "~_run_search\\(.*\\)", 1)}, wl_))
     rets3 = [norm(r.value) for r in walk_own(fl) if isinstance(r, ast.Return) and isinstance(r.value, ast.Tuple) and len(r.value.elts) == 3 and not all(isinstance(e, (ast.List, ast.Constant)) for e in r.value.elts)]
     ctx.check("limited-recipe-is-replay-state", wl_, rets3 == ["(start_keys, exclude_keys, len(keys))"], "the limited recipe returns (start keys, stop keys, number of keys) of the locally replayed search", construct=str(rets3), message=f"limited_search_result_from_parent_map returns {rets3}: the stop keys / count are no longer the state of the local replay of the walk the server will repeat, so the server's count check fails (or passes for a different set)")
     for v, allowed in (("exclude_keys", ()), ("keys", ()), ("start_keys", ("set(start_keys).difference(found_heads)", "start_keys.difference(found_heads)"))):
